@@ -18,7 +18,7 @@ MAX_WORKERS = 4  # CP-SAT spawns its own threads
 RULE = (
     "Generated: non-flexible instance, durations >= 0 (zeros weighted up), "
     "recirculation and irregular jobs; kind 'small' (<=9 ops quick, <=11 "
-    "thorough): exact optimum from the independent exhaustive search; kind "
+    "thorough; a share of them with 2**53 + 1 added to every positive duration, i.e. times not representable as a double): exact optimum from the independent exhaustive search; kind "
     "'history': 2-4 instances solved one after another by the SAME "
     "ORToolsSolver object, each result compared with a fresh solver's; kind "
     "'large' (<=6x6): bounds only; fixed cases: benchmark instances with "
@@ -59,7 +59,20 @@ def strategy(tier):
         lambda l: {"kind": "history", "insts": l}
     )
     k_large = large.map(lambda i: {"kind": "large", "insts": [i]})
-    return gen.weighted((5, k_small), (3, k_hist), (1, k_large))
+    # times beyond 2**53 (not representable as a double), within CP-SAT's
+    # integer range: 2**53 + 1 added to every positive duration of an
+    # instance with small durations
+    plain = gen.instances(
+        max_jobs=3, max_ops=3, max_machines=3, max_total=8, flexible=False, zero_ok=True
+    )
+
+    def beyond_double(i):
+        i = dict(i)
+        i["durations"] = [[(2**53 + 1 + x) if x else 0 for x in row] for row in i["durations"]]
+        return {"kind": "small", "insts": [i]}
+
+    k_53 = plain.map(beyond_double)
+    return gen.weighted((5, k_small), (3, k_hist), (1, k_large), (1, k_53))
 
 
 def fixed_cases(tier):
